@@ -69,6 +69,32 @@ def generated_context(src):
     return '\n'.join(consts) + '\n' + rank, info, counts
 
 
+def lower_own_comparison(b, info):
+    """SaslMechanism's own operator<=> (if the class declares one): the real function, lowered; its single return expression also
+    becomes the macro SaslMechanism_CMP(a, b) so that loop invariants (no function calls) can use the code's own order"""
+    d = info.get('own_spaceship')
+    if d is None:
+        return ''
+    prof = Profile(types=with_qualified({'SaslMechanism': 'SaslMechanism', 'std::strong_ordering': 'int', 'std::size_t': 'size_t'}),
+                   class_types={'SaslMechanism'}, calls={'SaslMechanism::index/0': ('expr', '{0}->index')})
+    saved, b.profile = b.profile, prof
+    try:
+        t = Target('src/base/QXmppSasl_p.h', 'SaslMechanism', 'operator<=>', 'SaslMechanism_spaceship', this='SaslMechanism', lowerer_cls=L.SaslLowerer)
+        t.decl = d
+        text = b.lower(t)
+    finally:
+        b.profile = saved
+    m = re.fullmatch(r'int SaslMechanism_spaceship\(const SaslMechanism \*self, const SaslMechanism \*(\w+)\)\n\{\n  return (.*);\n\}', text.strip())
+    if not m:
+        raise Unsupported('SaslMechanism::operator<=> is not a single return of an expression: ' + text[:200])
+    e = re.sub(r'\(\*%s\)' % m.group(1), '(b)', m.group(2))
+    e = re.sub(r'\b%s->' % m.group(1), '(b).', e)
+    e = re.sub(r'\bself->', '(a).', e)
+    if re.search(r'\b(self|%s)\b' % m.group(1), e):
+        raise Unsupported('SaslMechanism::operator<=>: cannot express the body as a macro: ' + e)
+    return '/* lowered from SaslMechanism::operator<=> (%s): */\n/* %s */\n#define SaslMechanism_CMP(a, b) (%s)\n' % (SASL, text.replace('\n', ' '), e)
+
+
 # ---------------------------------------------------------------------------------------------------------------- part A profile
 def with_qualified(types):
     """clang spells the repository's types with or without their namespace: register both spellings"""
@@ -257,7 +283,7 @@ def profile_b(info, iana_n, lit):
         types[short] = 'int'
     types = with_qualified(types)
     calls = {
-        'qsv::startsWith/1': ('fn', 'qsv_startsWith'), 'qsv::mid/1': ('fn', 'qsv_mid'), 'qsv::size/0': ('expr', '(long long)({0}).n'),
+        'qsv::startsWith/1': ('fn', 'qsv_startsWith'), 'qsv::trimmed/0': ('fn', 'qsv_trimmed'), 'qsv::isEmpty/0': ('expr', '({0}).n == 0'), 'qsv::mid/1': ('fn', 'qsv_mid'), 'qsv::size/0': ('expr', '(long long)({0}).n'),
         'op==:qsv:qsv': ('fn', 'qsv_eq'),
         'QStr::operator QString/0': ('arg', 0),
         'IanaTable::at/1': ('expr', 'IANA_AT({1})'), 'IanaTable::size/0': ('const', '((size_t)IANA_N)'),
@@ -340,6 +366,7 @@ def build(work, tier):
     # ================================================================ part A: opaque strings -- availability and choice
     pa = profile_a(info)
     ba = Builder('C05', work, pa)
+    gen += lower_own_comparison(ba, info)
     sp_av = ba.spec('available.spec')
     t_av = ba.lower(Target(SASL, 'QXmppSaslClient::isMechanismAvailable', 'isMechanismAvailable', 'QXmppSaslClient_isMechanismAvailable',
                            lowerer_cls=L.SaslLowerer), sp_av)
@@ -475,6 +502,8 @@ void h_choose(void) { SaslMechanism pm; g_probe = pm; g_i = nondet_long(); gh_sr
             'and a range-for over it an index loop (structured bindings = the pair members); std::optional observers has_value / operator bool / * / -> on every modelled optional',
             'Sasl2Manager::authenticate: without a stored token no HT mechanism is usable (isMechanismAvailable, verified), so the contract leaves open whether the FAST mechanisms are handed to the '
             'negotiation in that case; with a token they must be, and never when FAST is not enabled in the configuration',
+            'QStringView::trimmed() (Qt 5.15): the sub-view without the leading and trailing QChar::isSpace() code units, by witnesses (units/C05/model_b.h)',
+            'if SaslMechanism declares its own operator<=>, `a < b` (std::ranges::less in std::ranges::max) is (a <=> b) < 0 with that function (lowered from the AST, not modelled); operator== stays the variant base\'s',
             'std::array<QStringView, N>::at(i) throws for i >= N (checked as an assertion), ::size() = N; the table ianaHashAlgorithms is extracted from the AST',
             'callers (units/C05/model_c.h, partc.py): A-QLIST-SEQ a QList<QString> is a sequence of up to two array segments, std::ranges::copy(vector, back_inserter(list)) appends; '
             'A-TASK makeReadyTask / QXmppPromise / task(); A-SEND sendData(serializeXml(x)) = "x was sent" (event); QXmpp::Private::contains over std::vector<QString> is an uninterpreted, '
